@@ -2,7 +2,7 @@
 # import_mutant.py <prop> <letter> "<needs>" "<detected-by>"  : copies a confirmed seeded change into /verif/seeded/<prop>-<letter>/
 import sys, os, shutil, json, re
 prop, letter, needs, detected = sys.argv[1:5]
-src = "/tmp/mut/%s/%s" % (prop, letter)
+src = "%s/%s/%s" % (os.environ.get("MUT_ROOT", "/tmp/mut"), prop, letter)
 dst = "/verif/seeded/%s-%s" % (prop, letter)
 os.makedirs(dst, exist_ok=True)
 shutil.copyfile(src + "/patch.diff", dst + "/patch.diff")
